@@ -211,6 +211,7 @@ def decodeDesc (j : Json) : D Desc := do
   let algo ← decodeAlgo (← asStr (← getReq rkvs "route_algo"))
   pure { name := ← asStr (← getReq kvs "name"), netType := netType, algo := algo,
          useIdTable := (← optM (getOpt rkvs "use_id_table") asBool).getD true,
+         addrOffsetBits := ← optM (getOpt rkvs "addr_offset_bits") asNat,
          robIdxBits := (← optM (getOpt rkvs "rob_idx_bits") asNat).getD 1,
          portIdBits := (← optM (getOpt rkvs "port_id_bits") asNat).getD 1,
          numVcIdBits := (← optM (getOpt rkvs "num_vc_id_bits") asNat).getD 0,
